@@ -1162,6 +1162,72 @@ pub fn build(seed: u64, size: usize) -> Pool {
         }
     }
 
+    cur_type = b'p';
+    // (p) points in the slivers that no sampled cell claims - lonlat_to_cell's rarely taken
+    //     fallback ("none of the candidates contains the point: take the nearest") - found through
+    //     the public API alone: the returned cell does not contain the point. Each with close
+    //     neighbours of the same kind: such points share their candidate list and may differ in
+    //     the winner (seeded change c13-au keyed a memo by the candidate list).
+    {
+        let mut found = 0;
+        let mut tries = 0;
+        while found < n(8) && tries < 30_000 {
+            tries += 1;
+            let r = rng.range(4, 14) as i32;
+            // the slivers are polar for the most part
+            let lat = if rng.pct(85) { (if rng.pct(50) { 1.0 } else { -1.0 }) * rng.uniform(74.0, 89.9) } else { rng.uniform(-74.0, 74.0) };
+            let lon = rng.uniform(-180.0, 180.0);
+            let in_gap = |lon: f64, lat: f64| -> Option<u64> {
+                let c = a5::lonlat_to_cell(LonLat::new(lon, lat), r).ok()?;
+                let d = a5::core::serialization::deserialize(c).ok()?;
+                let inside = a5::core::cell::a5cell_contains_point(&d, LonLat::new(lon, lat)).ok()?;
+                if inside > 0.0 {
+                    None
+                } else {
+                    Some(c)
+                }
+            };
+            let c0 = match in_gap(lon, lat) {
+                Some(c) => c,
+                None => continue,
+            };
+            // neighbours in the same sliver, grouped by the answer they get: a family is worth most
+            // when near-identical points get DIFFERENT answers
+            let mut by_answer: Vec<(u64, Vec<(f64, f64)>)> = vec![(c0, vec![(lon, lat)])];
+            for k in 0..400 {
+                let scale = [0.3, 0.1, 0.03, 0.01][k % 4];
+                let (lon2, lat2) = (lon + rng.uniform(-scale, scale), (lat + rng.uniform(-scale, scale) * 0.1).clamp(-90.0, 90.0));
+                if let Some(c2) = in_gap(lon2, lat2) {
+                    match by_answer.iter_mut().find(|e| e.0 == c2) {
+                        Some(e) => {
+                            if e.1.len() < 4 {
+                                e.1.push((lon2, lat2));
+                            }
+                        }
+                        None => {
+                            if by_answer.len() < 4 {
+                                by_answer.push((c2, vec![(lon2, lat2)]));
+                            }
+                        }
+                    }
+                }
+            }
+            if by_answer.len() < 2 && tries < 20_000 {
+                continue;
+            }
+            found += 1;
+            fam += 1;
+            fam_types.push(cur_type);
+            let g = (c0 >> 58) as u8 / 5;
+            for (c, pts) in &by_answer {
+                pushf(&mut ops, Op::CellToLonLat { cell: *c }, g, fam);
+                for (lo, la) in pts {
+                    pushf(&mut ops, Op::LonLatToCell { lon: F::of(*lo), lat: F::of(*la), res: r }, g, fam);
+                }
+            }
+        }
+    }
+
     // ---- poison siblings: for members of each family, the same call with ONE argument made
     //      invalid (error paths taken between near-identical valid calls)
     {
